@@ -396,16 +396,14 @@ func StoreTargetMetadata(target *core.BuildTarget, md *core.BuildMetadata) error
 		return fmt.Errorf("Failed to create directory for build metadata file for %s: %w", target, err)
 	}
 
-	mdFile, err := os.Create(filename)
-	if err != nil {
-		return fmt.Errorf("failed to create new %s build metadata file: %w", target.Label, err)
-	}
-
-	defer mdFile.Close()
-
-	writer := gob.NewEncoder(mdFile)
-	if err := writer.Encode(md); err != nil {
+	// Write the file atomically (temp file + rename): if we are killed part-way through, a later build
+	// must never find a truncated metadata file next to outputs whose hash record is still current.
+	var buf bytes.Buffer
+	if err := gob.NewEncoder(&buf).Encode(md); err != nil {
 		return fmt.Errorf("failed to encode %s build metadata file: %w", target.Label, err)
+	}
+	if err := fs.WriteFile(&buf, filename, 0644); err != nil {
+		return fmt.Errorf("failed to create new %s build metadata file: %w", target.Label, err)
 	}
 	return nil
 }
